@@ -295,7 +295,7 @@ mod private {
 
     /// C19: direct calls with lengths around every growth step, alternating long and short.
     pub fn unchecked_direct(cx: &mut Cx) {
-        let alpha: Vec<char> = "abcdeixy1ж".chars().collect();
+        let alpha: Vec<char> = if cx.tier != Tier::Miri && cx.rng.chance(1, 6) { "abcdefghijklmnopqrstuvwxyzäöüßё0123456789".chars().collect() } else { "abcdeixy1ж".chars().collect() };
         let mut lens: Vec<usize> = vec![];
         if cx.tier == Tier::Miri {
             // under the interpreter a 50-letter distance costs ~10 s: one pass over the growth steps
@@ -805,7 +805,7 @@ impl Prop for Prims {
     }
     fn floors(&self) -> Vec<(&'static str, u64, u64)> {
         match self.0 {
-            Which::Distance => vec![("exhaustive pairs", 100000, 2000000), ("prefix cells compared", 1000000, 20000000), ("pairs where a discount lowered the distance", 10000, 100000), ("random pairs beyond capacity 20", 500, 5000), ("long pairs with sampled prefix cells", 200, 2000), ("random cases with per-position character classes", 2000, 20000), ("re-classed repeat calls", 10000, 100000), ("hook matrix growths", 3, 3), ("hook matrix max size", 50, 50)],
+            Which::Distance => vec![("exhaustive pairs", 100000, 2000000), ("prefix cells compared", 1000000, 20000000), ("pairs where a discount lowered the distance", 10000, 100000), ("random pairs beyond capacity 20", 500, 5000), ("long pairs with sampled prefix cells", 200, 2000), ("random cases with per-position character classes", 2000, 20000), ("re-classed repeat calls", 10000, 100000), ("random cases over an alphabet of 41-110 symbols", 3000, 30000), ("hook matrix growths", 3, 3), ("hook matrix max size", 50, 50)],
             Which::Jaccard => vec![("exhaustive pairs", 100000, 1500000), ("pairs with partial overlap", 20000, 200000), ("pairs beyond the initial capacity of 20", 500, 5000), ("random cases over a wide alphabet", 1000, 10000), ("hook jaccard accesses", 100000, 1000000)],
             Which::Index => vec![("prepare calls", 5000, 50000), ("capped calls", 500, 5000), ("calls with ties at the cut", 100, 1000), ("size 0", 300, 3000), ("corpus prepare calls", 200, 2000), ("stores of 1023-5000 records", 50, 500), ("queries with more than 255 distinct grams", 300, 15000), ("calls at the boundary between 'all listed' and 'capped'", 300, 15000), ("session calls on one index", 1000000, 10000000), ("most calls on one index max ", 131000, 131000), ("sessions past 2^17 calls", 2, 20), ("calls with a query without words", 300, 3000), ("stores of words with letters above U+FFFF and their 16-bit look-alikes", 300, 3000)],
             Which::Unchecked => vec![("direct distance/similarity calls", 20000, 200000), ("direct calls beyond capacity 20", 5000, 50000), ("store-level searches", 5000, 50000), ("store-level rounds with 127-1500 records", 200, 2000), ("store-level rounds with clear and re-add", 500, 5000), ("type-ahead sequences with adds in between", 1000, 10000), ("direct call sequences with words of 76-420 letters", 200, 2000), ("direct call sequences with arithmetic length relations", 300, 3000), ("store-level queries of 65-200 words", 300, 3000), ("searches on a surviving store after a neighbour store was dropped", 3000, 30000), ("stores filled on one thread and searched on another", 500, 5000), ("jaccard calls on sets of 256-70000 distinct elements", 20, 200), ("hook matrix accesses", 1000000, 10000000), ("hook matrix growths", 3, 3), ("hook matrix max size", 50, 50), ("hook counter accesses", 10000, 100000), ("hook cost accesses", 100000, 1000000), ("hook jaccard accesses", 10000, 100000)],
@@ -829,7 +829,20 @@ impl Prop for Prims {
             }
             #[cfg(lucid_suggest_verif)]
             (Which::Distance, "random") => {
-                let alpha: Vec<char> = if cx.rng.chance(1, 6) { cv("a𝐀e😀b1xжcd漢i") } else { cv("aeiobcdf19xж") };
+                // mostly few symbols (many repeats, many transpositions); one case in six a real-size alphabet: words
+                // with more than 20 / 32 / 64 distinct letters (per-letter tables beyond their initial capacity)
+                let alpha: Vec<char> = match cx.rng.below(6) {
+                    0 => cv("a𝐀e😀b1xжcd漢i"),
+                    1 => {
+                        cx.count("random cases over an alphabet of 41-110 symbols");
+                        let mut a = cv("abcdefghijklmnopqrstuvwxyzäöüßё0123456789");
+                        if cx.rng.chance(1, 2) {
+                            a.extend((0..70u32).filter_map(|k| std::char::from_u32(0x430 + k)));
+                        }
+                        a
+                    }
+                    _ => cv("aeiobcdf19xж"),
+                };
                 // half of the cases run their whole call history on an instance of their own, so that
                 // growth steps (22 -> 34 -> 52 -> 79) are crossed thousands of times with different pasts
                 let own = if cx.rng.chance(1, 2) { Some(DamerauLevenshtein::new()) } else { None };
@@ -845,7 +858,7 @@ impl Prop for Prims {
                 }
                 let miri = cx.tier == Tier::Miri;
                 for step in 0..(if miri { 2 } else { 6 }) {
-                    let k = cx.rng.range(2, alpha.len());
+                    let k = if alpha.len() > 40 { cx.rng.range(21, alpha.len()) } else { cx.rng.range(2, alpha.len()) };
                     let long = (step + idx as usize) % 2 == 0;
                     let n1 = if long { if miri { cx.rng.range(21, 26) } else { cx.rng.range(18, 70) } } else { cx.rng.below(9) };
                     let c1: Vec<char> = (0..n1).map(|_| alpha[cx.rng.below(k)]).collect();
